@@ -61,8 +61,8 @@ CHECKS.update({
    note="Eligibility at the activity-window boundary (and within 6 s of it) is a don't-care.",
    technique=TECH+"whitelist fan-out under host faults and delivery orders; eligibility/ack/count oracles + bounded liveness", design="4 C08"),
  "C09": dict(level="exploration",
-   text=W+"1-4 hosts; connect, reconnect on a new connection, close of old or new connections in every order, peer requests in between: NumRemotes equals the hosts whose latest registered connection is open, connections closed before a request started are never written to, a reconnected host is instructed on its new connection only. Closes racing an in-flight request are covered by c09_registry_race.",
-   note="The pool end of every connection does what server.go does (Serve, Close, disconnect callback); the production server.go path itself is not run here.",
+   text=W+"1-4 hosts; connect, reconnect on a new connection, close of old or new connections in every order, peer requests in between: NumRemotes equals the hosts whose latest registered connection is open, connections closed before a request started are never written to, a reconnected host is instructed on its new connection only. Closes racing an in-flight request are covered by c09_registry_race; the production wiring by c09_l2_server.",
+   note="In the L1 scenarios the pool end of every connection does what server.go does; c09_l2_server runs the real runPool + server.ServeHTTP (hook H2) over simulated byte streams with scripted WebSocket hosts that end their sockets by TCP drop, close frames 1000/1001/1002/1006 or garbage.",
    technique=TECH+"connection lifecycle event orders vs a registry reference model", design="4 C09"),
  "C19": dict(level="exploration",
    text=W+"Hosts register (connect and legacy host) with 16 kinds of node-URI override from 9 kinds of connection source address; what is stored and what a client is handed is parsed with the agent-side parser and net.SplitHostPort and must carry the authenticated id and the supplied/connection host and port; undeterminable addresses must be refused.",
@@ -78,7 +78,7 @@ CHECKS.update({
    technique=TECH+"multi-round agent/node/pool histories with injected pool errors vs a reference reconciliation", design="4 C18"),
  "C20": dict(level="exploration",
    text="Real agent.Agent lifecycle on the simulated clock: sequences of Start, Start-again, Stop, Wait (in separate tasks), forced updates, pool failure at connect or at the k-th keep-alive, intervals 1 s to 10 min: Start while running returns ErrAlreadyStarted and sends nothing, exactly one keep-alive per interval while running and none when stopped, Stop ends the loop and Wait returns, a failed Start leaves nothing running, the agent can be started again after Stop and after the loop died.",
-   note="The command-line bound on the update interval (agent.go) is checked by the L2 scenario when built; here the interval is set directly on the Agent. Stop is only called while the model says the loop runs (Stop blocks by design otherwise).",
+   note="c20_l2_runner runs the production agentRunner (LoadAgent over the --update-interval option space: accepted only inside (5 s, 120 s); LoadPool + Run against the real runPool over a simulated WebSocket; keep-alives counted per interval as the pool's store sees them; Stop ends Run). Stop is only called while the model says the loop runs (Stop blocks by design otherwise).",
    technique=TECH+"lifecycle call sequences on a simulated clock; keep-alive cadence counted per simulated interval", design="4 C20"),
  "C17": dict(level="exploration",
    text="1-40 messages (requests, replies, tiny, > 64 KiB, unicode, nested) per writer are written through each codec to a simulated byte stream whose bytes the scheduler delivers in seeded chunks (one byte at a time, splits inside a message, several messages per read): stream codec (IOCodec), gorilla and gobwas WebSocket codecs through a real net/http server + real dialers, HTTP codec through real http.Transport/http.Server. The reader must obtain the same messages once, intact, in per-writer order. For the shipped codec (gorilla) 1-4 concurrent writers per side are used and a tenth of the runs is repeated in a -race build with masked scheduler hand-offs, so that unsynchronised writers are reported.",
@@ -86,11 +86,11 @@ CHECKS.update({
    technique=TECH+"byte-stream chunking schedules over real codecs, HTTP server and dialers; written-vs-read sequence oracle; race detector for concurrent writers", design="4 C17"),
  "C15": dict(level="exploration",
    text=W+"A hostile peer, concurrent with honest sessions on other connections, sends hostile but structurally valid JSON-RPC requests to every registered endpoint of the pool, payment and status services (missing/null/object/scalar params, wrong arity and types, duplicate and non-scalar ids, signatures of length 0..71 in several encodings, odd ids, URIs and peer descriptions, negative, huge and overflowing counts - also correctly signed by its own key), raw garbage and truncated JSON, and - registered as a host - hostile replies to whitelist calls; a second scenario runs the real agent.Agent against a hostile pool. A panic anywhere kills the worker process and is reported as the violation with the run's seed; every well-formed request must get exactly one reply with its id and a result or an error; the hostile connection must still answer vipnode_ping after hostile requests; honest sessions must complete.",
-   note="Hostility is injected at message level on the simulated codec (byte-level framing attacks on the WebSocket library are not generated). When the hostile peer also sent hostile replies the pool may drop that connection (the statement exempts floods of replies). \"result\":null next to an error is counted as an error reply.",
+   note="Hostility is injected at message level on the simulated codec; c15_l2_hostile adds hostile WebSocket frames and HTTP bodies against the real server.go / runPool while an honest session and the health check must keep working. When the hostile peer also sent hostile replies the pool may drop that connection (the statement exempts floods of replies). \"result\":null next to an error is counted as an error reply.",
    technique=TECH+"hostile request/reply catalogue injected into live multi-connection sessions; process-survival, one-reply and liveness oracles", design="4 C15"),
  "C16": dict(level="exploration",
    text="Servers built from a family of receiver types x prefixes x allow-lists, and the production registrations (vipnode_ with its allow-list, pool_ payment and status): every registered name, case variants, unexported/helper/unregistrable methods, other prefixes; for each callable method every arity 0..n+2, per-position JSON type substitutions, omitted/null/non-array params, directly and through a real jsonrpc2.Remote over a simulated connection: the callable set is exactly {prefix + lower-first(name)} within the allow-list and, for the pool, exactly the documented surface; unknown names get -32601, wrong arity or type gets -32602 and the method does not run (invocation counters; on production receivers no store operation and an unchanged state digest).",
-   note="Low simulation weight: schedule, clock and faults are inert; the simulator contributes the real registration code and the transport path. The method list of a separately started binary over real sockets is not probed (production registration code is reproduced as in pool.go; the L2 scenario, when present, runs runPool itself). JSON null for a scalar parameter is a don't-care.",
+   note="Low simulation weight: schedule, clock and faults are inert; the simulator contributes the real registration code and the transport path. c16_l2_surface probes the method list served by the real runPool registration (hook H2) over WebSocket and over HTTP POST; a separately started executable on real sockets is not used. JSON null for a scalar parameter is a don't-care.",
    technique=TECH+"name/arity/type probe matrices against real registration and dispatch code", design="4 C16"),
 })
 
